@@ -727,6 +727,7 @@ def run(run):
     derived(run, fx)
     from . import c03, c16, c10
     try:
+        c10.boxcount(run, fx)
         c10.boxsize(run, fx)                     # the collision-box records are written within what was allocated for them (shared with C10)
     except AnalysisBroken as ex:
         run.broken('LOADERSIB', 'box records', str(ex))
